@@ -162,6 +162,16 @@ def r2(ctx: Ctx, rep: Report):
                     rep.violation("C09.R2", key, cb.loc(origin), msg)
 
 
+def is_known_name(ctx: Ctx, fn, call: ast.Call) -> bool:
+    """the call goes to a pinned function / outside the package (i.e. it is not a helper a later change extracted)"""
+    from ..inventory import is_known
+    try:
+        ct = ctx.res.resolve_call(call, fn)
+    except Exception:
+        return True
+    return not ct.funcs or all(is_known(g, ctx.prog) for g in ct.funcs)
+
+
 def r3(ctx: Ctx, rep: Report):
     prog, res = ctx.prog, ctx.res
     inv = prog.cls("Inverter")
@@ -200,6 +210,17 @@ def r3(ctx: Ctx, rep: Report):
                           counter, delta, norm(arg) if arg is not None else "<missing>", p.describe(6)))
     if nret == 0 or nraise < 2:
         raise AnalysisError("_read_from_socket: expected a success path and two failure conversions, found %d/%d" % (nret, nraise))
+    # a refusal by the inverter is an answer, not a communication failure: the counting handlers must not catch it
+    rejected = prog.cls("RequestRejectedException")
+    for h in [x for x in ast.walk(rfs.node) if isinstance(x, ast.ExceptHandler)]:
+        classes = prog.resolve_exc_expr(rfs.module, h.type) if h.type is not None else []
+        catches = h.type is None or any(prog.is_subclass(rejected, c) for c in classes)
+        counts = any(isinstance(n, ast.stmt) and any(a == counter for a, _, _ in self_store(n)) for b in h.body for n in ast.walk(b)) or \
+            any(isinstance(n, ast.Call) and not is_known_name(ctx, rfs, n) for b in h.body for n in ast.walk(b))
+        rep.check(not (catches and counts), "C09.R3", "rejection-not-counted:%s" % (norm(h.type) if h.type is not None else "bare"), rfs.loc(h),
+                  "handler (%s) does not catch RequestRejectedException" % (norm(h.type) if h.type is not None else "bare"),
+                  bad="_read_from_socket's handler for %s also catches RequestRejectedException (class hierarchy): a refused request is counted as a consecutive failure and re-raised as RequestFailedException" % (
+                      norm(h.type) if h.type is not None else "everything"))
     # RequestFailedException stores its second argument as consecutive_failures_count
     init = rfe.methods.get("__init__")
     ok = init is not None and any(isinstance(n, (ast.Assign, ast.AnnAssign)) and norm(n.targets[0] if isinstance(n, ast.Assign) else n.target) == "self.consecutive_failures_count"
